@@ -294,7 +294,7 @@ func runHubSeq(a args) error {
 				}
 				form := url.Values{"topic": u.Topics, "id": {fmt.Sprint(u.ID)}, "data": {"d"}}
 				if u.Private {
-					form.Set("private", "on")
+					form.Set("private", r.Pick([]string{"on", "", "0", "false", "1"})) // present, whatever its value
 				}
 				code := func() (code int) {
 					defer func() {
